@@ -12,6 +12,9 @@ pub struct Job {
     /// the programs of this job (one for a split schedule tree, a batch for generated programs)
     pub programs: Vec<Program>,
     pub cancelable: bool,
+    /// run in a process that never installs a reporter
+    #[serde(default)]
+    pub no_reporter: bool,
     /// preemption bound; None = all interleavings
     pub bound: Option<u32>,
     pub rules: Vec<String>,
@@ -525,6 +528,284 @@ pub fn stream_sink_programs(thorough: bool) -> Vec<Program> {
                     out.push(lockstep(&name("sink"), &s));
                 }
             }
+        }
+    }
+    out
+}
+
+/// C09: queue-full episodes. A thread that traced before fills its command ring (leaving `leave`
+/// free slots), issues up to `max_ops` operations during the episode, waits for the collector's
+/// first cycle, then runs a fresh trace.
+pub fn overload_programs(max_ops: usize) -> Vec<Program> {
+    #[derive(Clone, Copy, PartialEq, Debug)]
+    enum E {
+        FinishChild,
+        EndScope,
+        Cancel,
+        FinishRoot,
+        NewRoot,
+        Attach,
+    }
+    let menu = [E::FinishChild, E::EndScope, E::Cancel, E::FinishRoot, E::NewRoot, E::Attach];
+    let mut seqs: Vec<Vec<E>> = vec![vec![]];
+    let mut frontier: Vec<Vec<E>> = vec![vec![]];
+    for _ in 0..max_ops {
+        let mut next = Vec::new();
+        for s in &frontier {
+            for m in menu {
+                if s.contains(&m) {
+                    continue;
+                }
+                // nothing touches the root's handle after it finished
+                if s.contains(&E::FinishRoot) && matches!(m, E::Cancel | E::Attach) {
+                    continue;
+                }
+                let mut t = s.clone();
+                t.push(m);
+                next.push(t);
+            }
+        }
+        seqs.extend(next.iter().cloned());
+        frontier = next;
+    }
+    let mut out = Vec::new();
+    let mut idx = 0;
+    for leave in [0usize, 1, 2] {
+        for seq in &seqs {
+            idx += 1;
+            let mut ops = vec![
+                Op::Warm,
+                root(9, "via", 0x9F),
+                root(0, "r", 0x91),
+                child(1, "c", 0),
+                child(2, "c2", 0),
+                finish(1),
+                scope(0),
+                lenter("l"),
+                pop(),
+                Op::Fill { leave, via: 9 },
+                sig(40),
+            ];
+            let mut root_live = true;
+            let mut child_live = true;
+            let mut scope_open = true;
+            for e in seq {
+                match e {
+                    E::FinishChild => {
+                        ops.push(finish(2));
+                        child_live = false;
+                    }
+                    E::EndScope => {
+                        ops.push(pop());
+                        scope_open = false;
+                    }
+                    E::Cancel => ops.push(cancel(0)),
+                    E::FinishRoot => {
+                        ops.push(finish(0));
+                        root_live = false;
+                    }
+                    E::NewRoot => {
+                        ops.push(root(3, "n", 0x92));
+                        ops.push(child(4, "nc", 3));
+                        ops.push(finish(4));
+                        ops.push(finish(3));
+                    }
+                    E::Attach => ops.push(addprop(0, "k", "v")),
+                }
+            }
+            // after the collector's first cycle: a fresh trace, then release what is left
+            ops.push(wait(50));
+            ops.push(root(5, "fresh", 0x93));
+            ops.push(child(6, "fc", 5));
+            ops.push(finish(6));
+            ops.push(finish(5));
+            if scope_open {
+                ops.push(pop());
+            }
+            if child_live {
+                ops.push(finish(2));
+            }
+            if root_live {
+                ops.push(finish(0));
+            }
+            ops.push(finish(9));
+            let mut p = Program::new(format!("C09-ring#{idx}")).worker("A", ops);
+            p.actors.push(Actor {
+                name: "collector".into(),
+                kind: ActorKind::Collector { atomic: false, pop_yields: 3 },
+                ops: vec![Op::Wait(40), Op::Cycle, Op::Signal(50), Op::Cycle],
+            });
+            out.push(p);
+        }
+    }
+    out
+}
+
+/// C09: the per-scope span limit.
+pub fn local_limit_programs() -> Vec<Program> {
+    let mut out = Vec::new();
+    let mut idx = 0;
+    let extra: Vec<Vec<Op>> = vec![
+        vec![],
+        vec![lenter("x1"), pop()],
+        vec![lenter("x1"), lenter("x2"), pop(), pop()],
+        vec![lenter("x1"), pop(), lenter("x2"), pop()],
+        vec![levent("xe"), lenter("x1"), pop()],
+        vec![lenter("x1"), lprop("xk", "xv"), levent("xe2"), pop()],
+        vec![lenter("x1"), lchild(3, "xc"), finish(3), pop(), lenter("x2"), pop()],
+    ];
+    for leave in [0usize, 1, 2] {
+        for ex in &extra {
+            idx += 1;
+            let mut ops = vec![root(0, "r", 0x9A), scope(0), lenter("outer"), Op::FillLocalSpans { leave }];
+            ops.extend(ex.iter().cloned());
+            ops.push(pop());
+            ops.push(pop());
+            ops.push(finish(0));
+            out.push(Program::new(format!("C09-locals#{idx}")).worker("A", ops).collector(1, true, 0));
+        }
+    }
+    out
+}
+
+/// C07: calls issued from inside the closure of every closure-taking call.
+pub fn reentrant_programs() -> Vec<Program> {
+    let inners: Vec<(&str, Vec<Op>)> = vec![
+        ("local-span", vec![lenter("in"), pop()]),
+        ("local-event", vec![levent("in.e")]),
+        ("local-prop", vec![lprop("in.k", "in.v")]),
+        ("local-ctx", vec![Op::ObserveLocal]),
+        ("child-of-local", vec![lchild(800, "in.c"), finish(800)]),
+        ("new-root", vec![root(801, "in.r", 0x77), finish(801)]),
+        ("scope", vec![scope(0), lenter("in.l"), pop(), pop()]),
+        ("local-collector", vec![Op::LcStart, lenter("in.l2"), pop(), pop()]),
+        ("handle-attach", vec![addprop(0, "in.hk", "in.hv"), addevent(0, "in.he")]),
+        ("ctx-of-span", vec![Op::ObserveSpan { slot: 0 }, Op::Elapsed { slot: 0 }]),
+        ("nested-closure", vec![Op::Reentrant { outer: Box::new(Op::LocalEnter { name: "in.n".into(), props: p("a", "b") }), inner: vec![levent("in.ne")] }, pop()]),
+    ];
+    let outers: Vec<(&str, Op, bool)> = vec![
+        ("root.with_properties", Op::Root { slot: 1, name: "o.r".into(), trace: U128(0x78), remote_parent: 0, sampled: true, props: p("o", "1") }, true),
+        ("child.with_properties", Op::Child { slot: 1, name: "o.c".into(), parents: vec![0], single: true, props: p("o", "1") }, true),
+        ("span.add_properties", Op::AddProps { slot: 0, props: p("o", "1") }, false),
+        ("event.with_properties->span", Op::AddEvent { slot: 0, name: "o.e".into(), props: p("o", "1") }, false),
+        ("local_span.with_properties", Op::LocalEnter { name: "o.l".into(), props: p("o", "1") }, false),
+        ("local_span.add_properties", Op::LocalAddProps { props: p("o", "1") }, false),
+        ("event.with_properties->local", Op::LocalAddEvent { name: "o.le".into(), props: p("o", "1") }, false),
+    ];
+    let mut out = Vec::new();
+    let mut idx = 0;
+    for (on, outer, makes_span) in &outers {
+        for (inn, inner) in &inners {
+            for in_local in [false, true] {
+                idx += 1;
+                let mut ops = vec![root(0, "r", 0x70), scope(0)];
+                if in_local {
+                    ops.push(lenter("open"));
+                }
+                ops.push(Op::Reentrant { outer: Box::new(outer.clone()), inner: inner.clone() });
+                if let Op::LocalEnter { .. } = outer {
+                    ops.push(pop());
+                }
+                if in_local {
+                    ops.push(pop());
+                }
+                ops.push(pop());
+                if *makes_span {
+                    ops.push(finish(1));
+                }
+                ops.push(finish(0));
+                let _ = (on, inn);
+                out.push(Program::new(format!("C07-reentrant#{idx}")).worker("A", ops).collector(0, true, 0));
+            }
+        }
+    }
+    out
+}
+
+/// C07: limits (scope stack, per-scope spans, full ring).
+pub fn limit_programs() -> Vec<Program> {
+    let mut out = Vec::new();
+    let mut idx = 0;
+    let after: Vec<Vec<Op>> = vec![
+        vec![scope(0), pop()],
+        vec![scope(0), lenter("x"), pop(), pop()],
+        vec![scope(0), scope(0), pop(), pop()],
+        vec![Op::LcStart, lenter("x"), pop(), Op::LcCollect { set: 0 }, Op::DropSet { set: 0 }],
+        vec![Op::LcStart, pop()],
+        vec![lenter("x"), lchild(3, "xc"), finish(3), pop()],
+        vec![scope(0), Op::ObserveLocal, levent("e"), lprop("k", "v"), pop()],
+    ];
+    for leave in [0usize, 1] {
+        for a in &after {
+            idx += 1;
+            let mut ops = vec![root(0, "r", 0x7C), Op::FillScopes { slot: 0, leave }];
+            ops.extend(a.iter().cloned());
+            ops.push(Op::Unfill);
+            ops.push(finish(0));
+            out.push(Program::new(format!("C07-scopes#{idx}")).worker("A", ops).collector(0, true, 0));
+        }
+    }
+    for leave in [0usize, 1] {
+        for a in [vec![lenter("x"), pop()], vec![levent("e"), lprop("k", "v")], vec![lchild(3, "xc"), finish(3), Op::ObserveLocal]] {
+            idx += 1;
+            let mut ops = vec![root(0, "r", 0x7D), scope(0), Op::FillLocalSpans { leave }];
+            ops.extend(a);
+            ops.push(pop());
+            ops.push(finish(0));
+            out.push(Program::new(format!("C07-locals#{idx}")).worker("A", ops).collector(0, true, 0));
+        }
+    }
+    for leave in [0usize, 1] {
+        for a in [
+            vec![child(3, "c", 0), finish(3)],
+            vec![cancel(0), addprop(0, "k", "v"), addevent(0, "e")],
+            vec![scope(0), lenter("x"), pop(), pop()],
+            vec![root(3, "n", 0x7F), finish(3), Op::Flush],
+        ] {
+            idx += 1;
+            let mut ops = vec![root(9, "via", 0x7E), root(0, "r", 0x7E), Op::Fill { leave, via: 9 }];
+            ops.extend(a);
+            ops.push(finish(0));
+            ops.push(finish(9));
+            out.push(Program::new(format!("C07-ring#{idx}")).worker("A", ops).collector(1, true, 0));
+        }
+    }
+    out
+}
+
+/// C07: calls made while the thread's local storage is being torn down.
+pub fn teardown_programs() -> Vec<Program> {
+    let calls: Vec<Vec<Op>> = vec![
+        vec![root(900, "x.r", 0x71), finish(900)],
+        vec![Op::RootRandom { slot: 900, name: "x.rr".into() }, finish(900)],
+        vec![Op::RandomIds],
+        vec![root(900, "x.r", 0x71), child(901, "x.c", 900), addprop(901, "k", "v"), addevent(901, "e"), finish(901), finish(900)],
+        vec![root(900, "x.r", 0x71), scope(900), lenter("x.l"), levent("x.e"), lprop("k", "v"), Op::ObserveLocal, lchild(901, "x.lc"), finish(901), pop(), pop(), finish(900)],
+        vec![lenter("x.l"), pop(), levent("x.e"), lprop("k", "v"), Op::ObserveLocal, lchild(901, "x.lc"), finish(901)],
+        vec![Op::LcStart, lenter("x.l"), pop(), Op::LcCollect { set: 90 }, Op::ToRecords { set: 90, trace: U128(1), span_id: 2 }, Op::DropSet { set: 90 }],
+        vec![root(900, "x.r", 0x71), cancel(900), Op::Elapsed { slot: 900 }, Op::ObserveSpan { slot: 900 }, finish(900), Op::Flush],
+        vec![Op::Noop { slot: 900 }, child(901, "x.c", 900), scope(901), pop(), finish(901), finish(900)],
+    ];
+    let mut out = Vec::new();
+    let mut idx = 0;
+    for call in &calls {
+        // registration order of the calling destructor relative to fastrace's (and rand's)
+        // thread-locals, and whether the thread traced at all
+        for variant in 0..4 {
+            idx += 1;
+            let hook = Op::AtThreadExit { inner: call.clone() };
+            let traced = vec![root(0, "r", 0x70), scope(0), lenter("l"), pop(), pop(), finish(0)];
+            let ops: Vec<Op> = match variant {
+                // destructor registered first, thread traces afterwards: runs after fastrace's TLS is gone
+                0 => std::iter::once(hook).chain(traced).collect(),
+                // thread traced first: destructor runs before fastrace's TLS is destroyed
+                1 => traced.into_iter().chain(std::iter::once(hook)).collect(),
+                // thread never traced
+                2 => vec![hook],
+                // registered first, then only random ids were used (rand's TLS exists, fastrace's not)
+                _ => vec![hook, Op::RandomIds],
+            };
+            out.push(Program::new(format!("C07-teardown#{idx}")).worker("A", ops).collector(0, true, 0));
         }
     }
     out
